@@ -52,6 +52,16 @@ typedef RCP<const Boolean> (*double_arg_boolean_func)(const RCP<const Basic> &,
                                                       const RCP<const Basic> &);
 typedef RCP<const Basic> (*vector_arg_func)(const vec_basic &);
 
+// Arguments of the logical functions must be Boolean: a static cast of anything
+// else (e.g. the Symbol in "not(x)") is undefined behaviour.
+static RCP<const Boolean> as_boolean(const RCP<const Basic> &b)
+{
+    if (!is_a_Boolean(*b)) {
+        throw ParseError("Boolean function received non-boolean arguments");
+    }
+    return rcp_static_cast<const Boolean>(b);
+}
+
 static RCP<const Basic> sqr(const RCP<const Basic> &x)
 {
     return pow(x, integer(2));
@@ -264,7 +274,7 @@ RCP<const Basic> SbmlParser::functionify(const std::string &name,
         }
         auto it3 = single_arg_boolean_boolean_functions.find(lname);
         if (it3 != single_arg_boolean_boolean_functions.end()) {
-            return it3->second(rcp_static_cast<const Boolean>(params[0]));
+            return it3->second(as_boolean(params[0]));
         }
     }
 
@@ -288,8 +298,7 @@ RCP<const Basic> SbmlParser::functionify(const std::string &name,
         PiecewiseVec v;
         for (std::size_t i = 0; i < params.size() / 2; ++i) {
             // piecewise has pairs of {value, bool condition}
-            v.push_back({params[2 * i],
-                         rcp_static_cast<const Boolean>(params[2 * i + 1])});
+            v.push_back({params[2 * i], as_boolean(params[2 * i + 1])});
         }
         if (params.size() % 2 == 1) {
             // piecewise can also have a default value
@@ -302,7 +311,7 @@ RCP<const Basic> SbmlParser::functionify(const std::string &name,
     if (it2 != multi_arg_vec_boolean_functions.end()) {
         vec_boolean p;
         for (auto &v : params) {
-            p.push_back(rcp_static_cast<const Boolean>(v));
+            p.push_back(as_boolean(v));
         }
         return it2->second(p);
     }
@@ -311,7 +320,7 @@ RCP<const Basic> SbmlParser::functionify(const std::string &name,
     if (it3 != multi_arg_set_boolean_functions.end()) {
         set_boolean s;
         for (auto &v : params) {
-            s.insert(rcp_static_cast<const Boolean>(v));
+            s.insert(as_boolean(v));
         }
         return it3->second(s);
     }
